@@ -129,6 +129,9 @@ def run(ctx):
             t["events"][0]["exc"] = "TypeError" if t["events"][0]["exc"] == "none" else "none"
             return t
         _selfcheck(ctx, "HashObjTrace", None, samples["hash"], corrupt_digest, "hash: one bit of a digest")
+    for fam in ("gcm", "ccm", "hash"):
+        if fam not in samples and not ctx.violations:
+            raise RuntimeError("no accepted %s trace for the binding self-check" % fam)
     ctx.extra["traces_per_family"] = total
     ctx.rule = ("call sequences generated by TLC from the object-layer models (all sequences of depth <= 2..3 by exhaustive "
                 "enumeration, random deeper ones by -simulate, seed-dependent sample) over update/encrypt/decrypt/digest/verify/"
